@@ -39,9 +39,13 @@ def run(case: dict, lean: Lean) -> Outcome:
             if not badpos or a == 0: break
             cur = badpos; a -= 1
         g = Scripted(draws)
-        with warnings.catch_warnings(record=True) as w:
-            warnings.simplefilter("always")
-            out = m.sample_negatives(np.array(rows, dtype=np.int32), weighting=weighting, max_attempts=attempts, rng=g)
+        try:
+            with warnings.catch_warnings(record=True) as w:
+                warnings.simplefilter("always")
+                out = m.sample_negatives(np.array(rows, dtype=np.int32), weighting=weighting, max_attempts=attempts, rng=g)
+        except Exception as e:
+            # the implementation asked for draws the declared protocol does not contain (or in another shape): correspondence broken for this case
+            return Outcome(False, True, tuple(classes + ["draw protocol deviates"]), {"error": type(e).__name__ + ": " + str(e)[:100], "calls": [list(map(str, c)) for c in g.calls], "draws": draws}, None)
         real = {"cols": [int(x) for x in out], "warned": any("verified negatives" in str(x.message) for x in w), "unused": len(g.script)}
         model = lean.call("c20.sample", {"nCols": ni, "observed": [[int(a_), int(b_)] for a_, b_ in obs], "storedCols": stored, "rows": rows, "draws": draws,
                                           "attempts": attempts, "weighting": weighting})
